@@ -12,6 +12,12 @@ import (
 // the slots readRuleHashFromXattrs reads each field from, the order of the comparisons in needsBuilding and
 // the parts CollapseHash folds into the cache key - read off src/build/incrementality.go and src/core/utils.go.
 // Every recognised expression is compared literally; any other shape fails closed.
+func nodeText(fset *token.FileSet, n ast.Node) string {
+	var buf bytes.Buffer
+	printer.Fprint(&buf, fset, n)
+	return buf.String()
+}
+
 func init() {
 	targets["EngineRecord"] = func() string {
 		var b strings.Builder
@@ -445,6 +451,176 @@ func init() {
 		}
 		b.WriteString("Inductive fgstep := FgSourceExists | FgSameHashKeep | FgRemoveAll | FgEnsureDir | FgLinkRecursively.\n")
 		b.WriteString("Definition filegroup_build_steps : list fgstep := [" + strings.Join(fgnames, "; ") + "].\n")
+
+		// ---- follow-up of the seeded changes C01/r2-m1..m3, C02/r2-m1: TRANSLATED statements (the model follows them)
+		// readRuleHashFromXattrs: the loop over the outputs as a little program over the accumulator h
+		//   RMissingFails     `if b == nil { return ruleHashes{} }`
+		//   RDifferentFails   `else if h != nil && !bytes.Equal(h, b) { return ruleHashes{} }`
+		//   RKeepFirst        `else if h == nil { h = b }`
+		//   RTakeLast         `h = b` at the end of the body
+		var rloop []string
+		var loop *ast.RangeStmt
+		for _, s := range rd.Body.List {
+			if rs, ok := s.(*ast.RangeStmt); ok {
+				if loop != nil {
+					failShape("readRuleHashFromXattrs: more than one loop")
+				}
+				loop = rs
+			}
+		}
+		if loop == nil || show(loop.X) != "target.FullOutputs()" || show(loop.Value) != "output" {
+			failShape("readRuleHashFromXattrs: no loop over target.FullOutputs()")
+		}
+		for i, s := range loop.Body.List {
+			switch x := s.(type) {
+			case *ast.AssignStmt:
+				switch t := show(x); {
+				case i == 0 && t == `b := fs.ReadAttr(output, xattrName, state.XattrsSupported)`:
+				case i > 0 && i == len(loop.Body.List)-1 && t == `h = b`:
+					rloop = append(rloop, "RTakeLast")
+				default:
+					failShape("readRuleHashFromXattrs: unrecognised statement in the loop {%s}", t)
+				}
+			case *ast.IfStmt:
+				for cur := x; cur != nil; {
+					body := show(cur.Body)
+					switch cond := show(cur.Cond); {
+					case cond == `b == nil` && body == `{ return ruleHashes{} }`:
+						rloop = append(rloop, "RMissingFails")
+					case cond == `h != nil && !bytes.Equal(h, b)` && body == `{ return ruleHashes{} }`:
+						rloop = append(rloop, "RDifferentFails")
+					case cond == `h == nil` && body == `{ h = b }`:
+						rloop = append(rloop, "RKeepFirst")
+					default:
+						failShape("readRuleHashFromXattrs: unrecognised branch in the loop {if %s %s}", cond, body)
+					}
+					switch e := cur.Else.(type) {
+					case nil:
+						cur = nil
+					case *ast.IfStmt:
+						cur = e
+					default:
+						failShape("readRuleHashFromXattrs: unrecognised else in the loop {%s}", show(cur.Else))
+					}
+				}
+			default:
+				failShape("readRuleHashFromXattrs: unrecognised statement in the loop {%s}", show(s))
+			}
+		}
+		b.WriteString("Inductive rstep := RMissingFails | RDifferentFails | RKeepFirst | RTakeLast.\n")
+		b.WriteString("Definition read_record_loop : list rstep := [" + strings.Join(rloop, "; ") + "].\n")
+
+		// filegroupBuilder.Build: the statements of the "same file, nothing to do" way out
+		var sbacts []string
+		foundSame := false
+		for _, st := range fb.Body.List {
+			ifs, ok := st.(*ast.IfStmt)
+			if !ok || ifs.Init == nil || !strings.HasPrefix(strings.Join(strings.Fields(nodeText(fgset, ifs.Init)), " "), `same, err := isSameFileContent(`) {
+				continue
+			}
+			el, ok := ifs.Else.(*ast.IfStmt)
+			if !ok || strings.Join(strings.Fields(nodeText(fgset, el.Cond)), " ") != "same" || el.Else != nil {
+				failShape("filegroupBuilder.Build: no `else if same { ... }` after isSameFileContent")
+			}
+			foundSame = true
+			for _, s := range el.Body.List {
+				switch t := strings.Join(strings.Fields(nodeText(fgset, s)), " "); t {
+				case `builder.built[to] = false`:
+					sbacts = append(sbacts, "SbMarkBuilt")
+				case `state.PathHasher.CopyHash(from, to)`:
+					sbacts = append(sbacts, "SbCopyHash")
+				case `return false, nil`:
+					sbacts = append(sbacts, "SbReturn")
+				default:
+					failShape("filegroupBuilder.Build: unrecognised statement in the same-file branch {%s}", t)
+				}
+			}
+		}
+		if !foundSame {
+			failShape("filegroupBuilder.Build: isSameFileContent branch not found")
+		}
+		b.WriteString("Inductive sbact := SbMarkBuilt | SbCopyHash | SbReturn.\n")
+		b.WriteString("Definition fg_same_file_acts : list sbact := [" + strings.Join(sbacts, "; ") + "].\n")
+
+		// fs.PathHasher.hash: the conjuncts of the guard on READING the hash from the xattr; storeHash: the plz-out guard;
+		// PathHasher.Hash: what the nil mark left by CopyHash does (the `else if present` branch of the memo prologue)
+		hset, hf := parseFile("src/fs/hash.go")
+		htext := func(n ast.Node) string { return strings.Join(strings.Fields(nodeText(hset, n)), " ") }
+		hfn := findFunc(hf, "PathHasher", "hash")
+		var guard []string
+		if len(hfn.Body.List) == 0 {
+			failShape("PathHasher.hash: empty")
+		}
+		gif, ok := hfn.Body.List[0].(*ast.IfStmt)
+		if !ok || htext(gif.Body) != `{ if b, err := xattr.LGet(path, hasher.xattrName); err == nil { return b, nil } }` || gif.Else != nil {
+			failShape("PathHasher.hash: does not start with the xattr read")
+		}
+		for _, cj := range strings.Split(htext(gif.Cond), " && ") {
+			switch cj {
+			case `read`:
+				guard = append(guard, "GRead")
+			case `strings.HasPrefix(path, "plz-out/")`:
+				guard = append(guard, "GBelowPlzOut")
+			case `hasher.useXattrs`:
+				guard = append(guard, "GUseXattrs")
+			default:
+				failShape("PathHasher.hash: unrecognised conjunct of the xattr read guard {%s}", cj)
+			}
+		}
+		if !strings.Contains(htext(hfn.Body), `} else if store && hasher.useXattrs { hasher.storeHash(path, hash) }`) {
+			failShape("PathHasher.hash: unrecognised store")
+		}
+		b.WriteString("Inductive hguard := GRead | GBelowPlzOut | GUseXattrs.\n")
+		b.WriteString("Definition hasher_read_guard : list hguard := [" + strings.Join(guard, "; ") + "].\n")
+		sfn := findFunc(hf, "PathHasher", "storeHash")
+		storeGuard := "false"
+		if len(sfn.Body.List) > 0 && htext(sfn.Body.List[0]) == `if !strings.HasPrefix(path, "plz-out/") { return }` {
+			storeGuard = "true"
+		}
+		b.WriteString("Definition hasher_store_below_plz_out_only : bool := " + storeGuard + ".\n")
+		Hfn := findFunc(hf, "PathHasher", "Hash")
+		var nilacts []string
+		foundPro := false
+		for _, st := range Hfn.Body.List {
+			ifs, ok := st.(*ast.IfStmt)
+			if !ok || htext(ifs.Cond) != "!recalc" {
+				continue
+			}
+			foundPro = true
+			var inner *ast.IfStmt
+			for _, s := range ifs.Body.List {
+				if x, ok := s.(*ast.IfStmt); ok {
+					inner = x
+				}
+			}
+			if inner == nil || htext(inner.Cond) != `present && cached != nil` || htext(inner.Body) != `{ return cached, nil }` {
+				failShape("PathHasher.Hash: unrecognised memo prologue")
+			}
+			switch e := inner.Else.(type) {
+			case nil:
+			case *ast.IfStmt:
+				if htext(e.Cond) != "present" || e.Else != nil {
+					failShape("PathHasher.Hash: unrecognised branch for the nil mark {%s}", htext(e.Cond))
+				}
+				for _, s := range e.Body.List {
+					switch t := htext(s); t {
+					case `store = false`:
+						nilacts = append(nilacts, "NStoreFalse")
+					case `recalc = true`:
+						nilacts = append(nilacts, "NRecalcTrue")
+					default:
+						failShape("PathHasher.Hash: unrecognised statement for the nil mark {%s}", t)
+					}
+				}
+			default:
+				failShape("PathHasher.Hash: unrecognised else in the memo prologue")
+			}
+		}
+		if !foundPro || !strings.Contains(htext(Hfn.Body), `result, err := hasher.hash(path, store, !recalc, timestamp)`) {
+			failShape("PathHasher.Hash: memo prologue or the call of hash(path, store, !recalc, ...) not found")
+		}
+		b.WriteString("Inductive nilact := NStoreFalse | NRecalcTrue.\n")
+		b.WriteString("Definition hasher_nil_mark : list nilact := [" + strings.Join(nilacts, "; ") + "].\n")
 		return b.String()
 	}
 }
